@@ -21,8 +21,8 @@ def run(pid, tier):
     chk = Check(pid, tier); rng = chk.rng
     info = ensure_all()
     with Lock():
-        h3 = build_harness("mime03", os.path.join(BUILD, "cargo-mime03"))
-        hh = build_harness("http-types", os.path.join(BUILD, "cargo-http"))
+        h3 = build_harness("mime03,sass", os.path.join(BUILD, "cargo-mime03"))
+        hh = build_harness("http-types,sass", os.path.join(BUILD, "cargo-http"))
     proof = proof_step(pid, thorough=(tier == "thorough"))
     # the suffixes each feature lists (docs of StaticFile::mime); used when the table cannot be read from the source any more
     DOC = {"mime03_rows": ["bmp", "css", "gif", "jpg", "jpeg", "js", "jsonp", "json", "png", "svg", "woff", "woff2"],
@@ -34,7 +34,9 @@ def run(pid, tier):
         chk.notes["table_extraction"] = "failed (%s); the documented suffix lists are used as the oracle" % e
         t = {k: [(x, None) for x in v] for k, v in DOC.items()}
     suffixes = sorted(set([a for a, _ in t["mime03_rows"]] + [a for a, _ in t["http_rows"]]) | set(REGISTRY))
-    unknown = ["", "tar", "x", "cs", "csss", "pn", "jpe", "woff3", "htmlx", "7z", "ÇSS", "cſs", "jſ", "K", "Jſ", "jsx", "pngx", "xmlx", "j", "s", "son", "off2", "2"]
+    unknown = ["", "tar", "x", "cs", "csss", "pn", "jpe", "woff3", "htmlx", "7z", "ÇSS", "cſs", "jſ", "K", "Jſ", "jsx", "pngx", "xmlx", "j", "s", "son", "off2", "2",
+               # longer than any known suffix, starting with one (fixed-size buffers, prefix tests)
+               "jsonpatch", "woff2_orig", "woff2bak", "JSONPayload", "jpegs", "htmlx5", "xmlrpc", "wasm32", "txt2", "csss", "svgz", "icons", "bmp2", "gif89a"]
     hist = []
     for s in suffixes:
         for v in case_variants(s):
@@ -42,7 +44,10 @@ def run(pid, tier):
         # names with more than one dot: the suffix is what follows the last one
         hist.append([("D", "lib.min." + s, b"x"), ("F", "d/logo.2x." + s, b"y"), ("A", "e/h.v1." + s, "to/h.v1." + s, b"z"), ("D", "k.css." + s, b"w")])
     for s in unknown:
-        hist.append([("D", "f." + s, b"x")] + ([("A", "e/noext", "to/n", b"z")] if s == "" else []))
+        hist.append([("D", "f." + s, b"x")] + ([("A", "e/noext", "to/n", b"z")] if s == "" else [("F", "d/g." + s, b"y"), ("A", "e/h." + s, "to/h." + s, b"z")]))
+    # a stylesheet compiled by add_sass_file is published as <stem>.css: text/css like any other css
+    hist.append([("D", "a.css", b"x"), ("S", "scss/m0.scss", "a.css")])
+    hist.append([("D", "logo.PNG", b"x"), ("S", "scss/Style.scss", "logo.PNG")])
     disagree = []; oracle_fail = []
     mime_rlib = sorted(glob.glob(os.path.join(BUILD, "cargo-mime03", "debug", "deps", "libmime-*.rlib")))
     for mode, harness in (("3", h3), ("h", hh)):
@@ -57,7 +62,7 @@ def run(pid, tier):
             items = items_of(unhexs(a.get("statics", "-")))[1]
             for op, it in zip(h, items):
                 mm_ = re.search(rb"\n  mime: &mime::([A-Za-z0-9_:]+),\n", it)
-                path = op[1]
+                path = op[1] if op[0] != "S" else op[1].rsplit(".", 1)[0] + ".css"      # add_sass_file publishes <stem>.css
                 suffix = path.rsplit("/", 1)[-1].rsplit(".", 1)[-1] if "." in path.rsplit("/", 1)[-1] else ""
                 if not mm_:
                     oracle_fail.append((h, "no `mime: &mime::<CONST>` line for %r (%s)" % (path, mode), it.decode("latin1")[-200:])); break
@@ -89,8 +94,11 @@ def run(pid, tier):
                         if rr.get("error"):
                             if "not run" in rr["error"]: continue
                             oracle_fail.append((h, "generated statics module does not compile against mime 0.3: " + rr["error"][:600], None)); continue
-                        for op, (name, ty) in zip(sorted(h, key=lambda o: published_url(o)), rr["types"]):
-                            path = op[1]; last = path.rsplit("/", 1)[-1]
+                        if len(rr["types"]) != len(h):
+                            oracle_fail.append((h, "mime03: %d entries in STATICS for %d added files" % (len(rr["types"]), len(h)), None)); continue
+                        for (name, ty) in rr["types"]:
+                            # the published name keeps the suffix as spelled (hashed names: <stem>-<hash>.<ext>; add_file_as: verbatim)
+                            last = name.decode("utf8", "replace").rsplit("/", 1)[-1]
                             suffix = last.rsplit(".", 1)[-1] if "." in last else ""
                             low = suffix.lower() if suffix.isascii() else None
                             in_table = low in [x for x, _ in t["mime03_rows"]]
